@@ -320,7 +320,19 @@ class Wire:
         segs = path_expr["segs"]
         name = segs[-1]["id"]
         gens = segs[-1].get("generics") or []
-        return {"name": name, "generics": [g for g in gens if g != "_"]}
+        out = []
+        for g in gens:
+            if g == "_":
+                continue
+            # a named constant used as a const generic (`::<TRACK_NAME_LEN, _>`): resolve it to its literal value
+            if isinstance(g, str) and re.match(r"^[A-Za-z_][A-Za-z0-9_:]*$", g) and not g[0].islower() and g.split("::")[-1].isupper():
+                cs = self.ast.const(g.split("::")[-1])
+                if len(cs) == 1:
+                    v = cs[0][3]["value"]
+                    if v.get("k") == "Lit" and v.get("t") == "int":
+                        g = str(int(v["v"]))
+            out.append(g)
+        return {"name": name, "generics": out}
 
     def helper_body_segs(self, fname, side, where):
         """segments produced/consumed by a workspace helper fn, via MIR events of its body"""
